@@ -69,15 +69,21 @@ CHECKS = {
          'specified component action under the mode causality rule; Moore '
          'implementations do not depend on next environment values; the goal '
          'counter stays in range when the environment keeps its action; '
-         'initial states via C03. Closure, non-blocking and liveness are NOT '
-         'proved (partial): they are searched on the real implementation by '
-         'explicit closed-loop analysis (reachability, blocking, fair cycles) '
-         'on every run. The model is tied by comparing the complete truth '
+         'initial states via C03; and, for the model composed with the '
+         'generated solver, ABSENCE OF BLOCKING at every winning valuation '
+         'with the counter in range (per the Mealy/Moore quantifier order), '
+         'via the onion structure of the recorded iterates; and CLOSURE: '
+         'every allowed step in which the environment keeps its action '
+         'leads to a winning valuation, hence every reachable state is '
+         'winning (induction over the behaviour). Only LIVENESS of infinite '
+         'behaviours is not proved (partial): it is searched on the real '
+         'implementation by explicit closed-loop fair-cycle analysis on '
+         'every run (which also re-checks refinement and non-blocking). The model is tied by comparing the complete truth '
          'tables of action[impl]/init[impl] with the real construction.'),
    note=('Trusted: Coq kernel+vm_compute; hand model tied by sampled '
          'correspondence (tables are exhaustive per game); translator for '
-         'the generated parts; dd by meaning. Liveness/non-blocking only '
-         'searched, not proved. No axioms.')),
+         'the generated parts; dd by meaning. Liveness only searched, not '
+         'proved. No axioms.')),
  'C05': dict(
    design_ref='§6 C05',
    technique='Coq proofs on a hand model of make_rabin_transducer; two machine-checked refutation witnesses (known findings F3, F12); correspondence + closed-loop search',
